@@ -30,6 +30,12 @@ class Livelock(Exception):
     pass
 
 
+# what a failing task raises: the property is about every exception a task can raise, also the ones the executor
+# machinery itself uses for its own purposes
+EXC = {"task": TaskError, "timeout": TimeoutError, "cancelled": concurrent.futures.CancelledError, "value": ValueError}
+TASK_EXCS = tuple(EXC.values())
+
+
 class FakeWorld:
     """Deterministic environment: clock + schedule + the in-flight futures."""
 
@@ -55,7 +61,7 @@ class FakeWorld:
         i = f._i
         if i in self.cfg["raises"]:
             self.trace.append(["E", i])
-            f.set_exception(TaskError(i))
+            f.set_exception(EXC[self.cfg.get("exc", "task")](i))
         else:
             self.trace.append(["D", i])
             f.set_result(("r", f._value))
@@ -101,6 +107,11 @@ class FakeWorld:
 class FakeExecutor:
     def __init__(self, world):
         self.w = world
+
+    def shutdown(self, *a, **kw):
+        # ProcessPoolExecutor.shutdown() waits for the tasks that are running
+        for f in self.w.running():
+            self.w.complete(f)
 
     def __enter__(self):
         return self
@@ -178,17 +189,23 @@ def run_real_pmap(cfg):
     values = list(range(cfg["n"]))
     try:
         try:
-            res = par._generic_pmap(
-                _task, values, (), {}, reduce_func if cfg["reducer"] else None,
-                timeout, cfg["fail_fast"], cfg["workers"], "", {},
-                lambda: FakeExecutor(w), extract_result, shutdown)
+            if cfg.get("frontend"):
+                # through parallel_map itself: its own executor set-up, result extraction and shutdown
+                fake_cf.ProcessPoolExecutor = lambda *a, **kw: FakeExecutor(w)
+                res = par.parallel_map(_task, values, reduce_func=reduce_func if cfg["reducer"] else None,
+                                       map_kw={"timeout": timeout, "fail_fast": cfg["fail_fast"], "num_cpus": cfg["workers"]}, progress_bar="")
+            else:
+                res = par._generic_pmap(
+                    _task, values, (), {}, reduce_func if cfg["reducer"] else None,
+                    timeout, cfg["fail_fast"], cfg["workers"], "", {},
+                    lambda: FakeExecutor(w), extract_result, shutdown)
             out = {"kind": "return", "results": _res(res)}
         except par.MapExceptions as e:
             out = {"kind": "map_exceptions", "errors": list(e.errors.keys()), "results": _res(e.results)}
             for k, v in e.errors.items():
-                if not (isinstance(v, TaskError) and v.args[0] == k):
+                if not (isinstance(v, EXC[cfg.get("exc", "task")]) and v.args[0] == k):
                     out["bad_error_index"] = [k, repr(v)]
-        except TaskError as e:
+        except TASK_EXCS as e:
             out = {"kind": "raise", "index": e.args[0]}
     finally:
         par.time, par.concurrent = saved
@@ -364,9 +381,12 @@ def gen_cfg(rng, tier):
         m = int(rng.choice([0, 0, 1, 1, 1, 2, 3]))
         sched.append({"comp": [int(x) for x in rng.integers(0, 6, size=m)],
                       "tick": int(rng.choice([0, 0, 0, 1, 1, 2, 5])) if timeout is not None else int(rng.choice([0, 1]))})
-    return {"n": n, "workers": workers, "raises": raises, "fail_fast": bool(rng.integers(0, 2)),
-            "reducer": reducer, "stop_after": stop_after, "timeout": timeout,
-            "drain": bool(rng.random() < 0.7), "sched": sched}
+    cfg = {"n": n, "workers": workers, "raises": raises, "fail_fast": bool(rng.integers(0, 2)),
+           "reducer": reducer, "stop_after": stop_after, "timeout": timeout,
+           "drain": bool(rng.random() < 0.7), "sched": sched}
+    cfg["exc"] = str(rng.choice(["task", "task", "timeout", "cancelled", "value"]))
+    cfg["frontend"] = bool(cfg["drain"] and rng.random() < 0.5)
+    return cfg
 
 
 def enumerate_small():
